@@ -38,6 +38,18 @@ Definition give_back (id : Z) (st : rstate) : rstate :=
   | None => st
   end.
 
+(** [reqs] simultaneous requests for the SAME job id (true = fullsync flavour), served in some order by the
+    mutex: how many get a ticket *)
+Fixpoint grant_count (id : Z) (reqs : list bool) (st : rstate) : nat :=
+  match reqs with
+  | [] => O
+  | f :: reqs' =>
+    match borrow id f st with
+    | Some st' => S (grant_count id reqs' st')
+    | None => grant_count id reqs' st
+    end
+  end.
+
 Inductive rop := OBorrow (id : Z) (full : bool) | OReturn (id : Z).
 
 Definition rstep (st : rstate) (o : rop) : rstate :=
